@@ -216,6 +216,10 @@ theorem BI_bdeliver (b : BSt) (tid : Nat) (hb : BI b) : BI (bdeliver b tid) := b
         hb.tids.sublist List.filter_sublist, hb.order, hb.once, hb.window⟩
     | cons m rest =>
       simp only []
+      by_cases hheld : b.held.contains m = true
+      · simp only [hheld, if_true]; exact hb
+      have hheld' : b.held.contains m = false := by cases hc : b.held.contains m with | true => exact absurd hc hheld | false => rfl
+      simp only [hheld', Bool.false_eq_true, if_false]
       have hnd : (m :: rest).Nodup := hrem ▸ okf.nodup
       rw [List.nodup_cons] at hnd
       have hmrem : m ∈ f.rem := by rw [hrem]; exact List.mem_cons_self ..
@@ -359,11 +363,33 @@ theorem BI_bdeliver (b : BSt) (tid : Nat) (hb : BI b) : BI (bdeliver b tid) := b
           · exact hb.window x i hi
           · simp only [List.mem_singleton] at hi; subst hi; exact okf.sub x hmrem
 
+/-- parking / waking touch neither the channel state nor the history variables -/
+theorem BI_of_same (b b' : BSt) (h1 : b'.q = b.q) (h2 : b'.flights = b.flights) (h3 : b'.pubs = b.pubs)
+    (h4 : b'.acc = b.acc) (h5 : b'.got = b.got) (hb : BI b) : BI b' := by
+  refine ⟨h1 ▸ hb.nd, fun m => by rw [h1, h3, h4, h5]; exact hb.hist m, fun m i hi => by rw [h3]; rw [h4] at hi; exact hb.bnd m i hi,
+    ?_, h2 ▸ hb.tids, fun m => by rw [h3, h4]; exact hb.order m, fun m => by rw [h4]; exact hb.once m,
+    fun m i hi => by rw [h3]; rw [h4] at hi; exact hb.window m i hi⟩
+  intro f hf
+  rw [h2] at hf
+  have ok := hb.fl f hf
+  exact ⟨h3 ▸ ok.lt, h3 ▸ ok.tid, h3 ▸ ok.msg, ok.nodup, fun m hm => ok.fresh m (h4 ▸ hm), fun m hm => h3 ▸ ok.sub m hm,
+    fun i hi ht => ok.latest i (h3 ▸ hi) (h3 ▸ ht)⟩
+
+theorem bpark_same (b : BSt) (r : Nat) (h : Bool) :
+    (bpark b r h).q = b.q ∧ (bpark b r h).flights = b.flights ∧ (bpark b r h).pubs = b.pubs ∧
+    (bpark b r h).acc = b.acc ∧ (bpark b r h).got = b.got := by
+  unfold bpark; split
+  · exact ⟨rfl, rfl, rfl, rfl, rfl⟩
+  · split <;> exact ⟨rfl, rfl, rfl, rfl, rfl⟩
+
 theorem BI_bstep (b : BSt) (o : BOp) (hb : BI b) : BI (bstep b o) := by
   cases o with
   | api op => exact BI_bapi b op hb
   | begin tid h t v => exact BI_bbegin b tid h t v hb
   | deliver tid => exact BI_bdeliver b tid hb
+  | park r => obtain ⟨h1, h2, h3, h4, h5⟩ := bpark_same b r false; exact BI_of_same b _ h1 h2 h3 h4 h5 hb
+  | wake r => exact BI_of_same b _ rfl rfl rfl rfl rfl hb
+  | parkHolding r => obtain ⟨h1, h2, h3, h4, h5⟩ := bpark_same b r true; exact BI_of_same b _ h1 h2 h3 h4 h5 hb
 
 theorem BI_brun (b : BSt) (os : List BOp) (hb : BI b) : BI (brun b os) := by
   induction os generalizing b with
